@@ -546,7 +546,7 @@ theorem findConflictsWithinSelectionSet_sound {s : SV} {U : Univ} (env : Env) {f
       · rename_i st2 c2 h2
         injection h with h
         subst h
-        exact allSound_append (within_sound hfc _ gA st _ h1) (withinLoop_sound env hfc hfr gA _ _ _ h2)
+        exact allSound_append (within_sound hfc _ gA _ _ h1) (withinLoop_sound env hfc hfr gA _ _ _ h2)
 
 /-- every conflict that one observer call reports is sound (context: parents not exclusive) -/
 theorem overlapRun_sound (s : SV) (d : QueryDoc) (l : Links) (parent : Option Definition) (sels : Selections)
